@@ -1,5 +1,5 @@
-(* scratch: a node is handed to at most one remover — in every run at most one ownership exchange on a node returns a word without
-   the REMOVAL_OWNER flag *)
+(* a node is handed to at most one remover or replacer - in every run, for each node, at most one event is either an ownership exchange of a
+   del that returns a word without the REMOVAL_OWNER flag or a successful replacing cmpxchg (which sets REMOVED and REMOVAL_OWNER at once) *)
 From Coq Require Import List Arith NArith Bool Lia.
 Import ListNotations.
 Require Import Urcu.Base.MachD Urcu.Lfht.Lfht Urcu.Lfht.LfhtSorted Urcu.Lfht.LfhtReach Urcu.Lfht.LfhtStep Urcu.Lfht.LfhtKinds Urcu.Lfht.LfhtRch Urcu.Lfht.LfhtFind.
@@ -20,7 +20,8 @@ Definition OR (s : st) : Prop := forall x, is_owner (nxw s x) = true -> insd s x
 
 Ltac dk Hk :=
   destruct Hk as [Hn Hi|node Hnn Hn Hi|t0 b0 u0 prev node iter Hpc Hpi Hnn Hn0 Hpv Hrm Hnode Hpp Hpr Hpo Hn Hi
-                 |prev iter nx Hpi Hpv Hrm Hp0 Hpn Hrn Hpp Hpr Hpo Hn Hi|n Hni Hpp Hpr Hom Hn Hi].
+                 |prev iter nx Hpi Hpv Hrm Hp0 Hpn Hrn Hpp Hpr Hpo Hn Hi|n Hni Hpp Hpr Hom Hn Hi
+                 |t0 old new onext szr Hpc Hoi Hnn Hn0 Hov Hrm Hnew Hpp Hpr Hpo Hn Hi].
 
 Lemma OR_kind (s s' : st) : Inv2 s -> OR s -> kind s s' -> OR s'.
 Proof.
@@ -31,6 +32,10 @@ Proof.
     destruct (proj1 (Hi x) Hxi) as [Hs| ->]; [apply HO; assumption|]. rewrite Hnode, own_clr in Hx. discriminate.
   - destruct (N.eq_dec x prev) as [->|Hxp]; [congruence|]. rewrite (Hn x Hxp) in *. apply HO; [exact Hx|apply Hi; exact Hxi].
   - destruct (N.eq_dec x n) as [->|Hxn]; [exact Hpr|]. rewrite (Hn x Hxn) in *. apply HO; [exact Hx|apply Hi; exact Hxi].
+  - destruct (N.eq_dec x old) as [->|Hxo]; [exact Hpr|]. rewrite (Hn x Hxo) in *.
+    destruct (proj1 (Hi x) Hxi) as [Hs| ->]; [apply HO; assumption|].
+    (* the new node carries old's former word, which had no owner flag since old was not removed *)
+    rewrite Hnew, <- Hov in Hx. pose proof (HO old Hx Hoi) as H. rewrite Hov, Hrm in H. discriminate.
 Qed.
 
 Lemma own_mono (s s' : st) x : Inv2 s -> OR s -> kind s s' -> insd s x -> is_owner (nxw s x) = true -> is_owner (nxw s' x) = true.
@@ -41,10 +46,15 @@ Proof.
   - destruct (N.eq_dec x prev) as [->|Hxp]; [|rewrite (Hn x Hxp); exact Hx]. pose proof (HO prev Hx Hxi) as H. rewrite Hpv, Hrm in H. discriminate.
   - destruct (N.eq_dec x prev) as [->|Hxp]; [|rewrite (Hn x Hxp); exact Hx]. pose proof (HO prev Hx Hxi) as H. rewrite Hpv, Hrm in H. discriminate.
   - destruct (N.eq_dec x n) as [->|Hxn]; [apply Hom; exact Hx|rewrite (Hn x Hxn); exact Hx].
+  - destruct (N.eq_dec x old) as [->|Hxo]; [exact Hpo|rewrite (Hn x Hxo); exact Hx].
 Qed.
 
 Definition is_succ (n : N) (e : event hloc) : bool :=
-  match e with Ev _ _ (AXchg _ (HNext m) _) r => (m =? n) && negb (is_owner r) | _ => false end.
+  match e with
+  | Ev _ _ (AXchg _ (HNext m) _) r => (m =? n) && negb (is_owner r)                        (* del: the exchange found the flag clear *)
+  | Ev _ _ (ACas _ (HNext m) e nw) r => (m =? n) && (r =? e) && is_owner nw                 (* replace: the cmpxchg that sets the flag succeeded *)
+  | _ => false
+  end.
 Definition count_succ (n : N) (es : list (event hloc)) : nat := length (filter (is_succ n) es).
 
 (* the event emitted by a step *)
@@ -59,24 +69,38 @@ Proof.
   destruct (hact p) eqn:Ea; cbn [eff2 fst snd]; try reflexivity; destruct (Hns l v eq_refl).
 Qed.
 
-(* a successful ownership exchange finds the flag clear and leaves it set *)
-Lemma succ_step (s : st) t n e : Inv2 s -> snd (exec hloc hloc_eqb (hprog C) (Step t) s) = Some e -> is_succ n e = true ->
+(* a successful ownership exchange / replacing cmpxchg finds the flag clear and leaves it set *)
+Lemma succ_step (s : st) t n e : Inv2 s -> OR s -> snd (exec hloc hloc_eqb (hprog C) (Step t) s) = Some e -> is_succ n e = true ->
   insd s n /\ is_owner (nxw s n) = false /\ is_owner (nxw (fst (exec hloc hloc_eqb (hprog C) (Step t) s)) n) = true.
 Proof.
-  intros HI He Hs. rewrite (ev_shape s t HI) in He. cbv zeta in He.
+  intros HI HO He Hs. rewrite (ev_shape s t HI) in He. cbv zeta in He.
   rewrite (exec_shape2 C isB s t HI). cbv zeta.
   pose proof (J_cr C isB s HI t) as Hcr. unfold PCr, FND in Hcr. pose proof (J_li C isB s HI t) as Hli. unfold PCr in Hli.
   set (p := tpc _ _ (THr C s t)) in *.
   unfold hact in *. destruct (hcur p) eqn:Ep;
     match type of He with context [htodo p] => destruct (htodo p) as [|[]] | _ => idtac end; inversion He; subst e; cbn [is_succ] in Hs; try discriminate.
-  apply andb_prop in Hs. destruct Hs as [Hm Ho]. apply N.eqb_eq in Hm. subst node. cbn [eff2 fst snd] in *.
-  destruct Hli as [_ (Hz & _)].
-  assert (Hin : In n (refs (D_Xchg n v) ++ [found p])) by (cbn; tauto).
-  destruct (Hcr _ Hin) as [E|Hi]; [contradiction|].
-  split; [exact Hi|split].
-  - unfold LfhtReach.nxw, Mm. destruct (is_owner (smem hloc (hprog C) s (HNext n))); [discriminate|reflexivity].
-  - assert (Hp0 : hpost C p (smem hloc (hprog C) s (HNext n)) = []) by (unfold hpost, hnext; rewrite Ep; reflexivity). rewrite Hp0. cbn [drain].
-    unfold LfhtReach.nxw, Mm; cbn [smem mkst2]. rewrite upd_s. apply own_lor4.
+  - (* A_Cas: never sets the owner flag *) exfalso. apply andb_prop in Hs. destruct Hs as [_ Ho]. destruct (is_bucket iter); [rewrite own_mkpB in Ho|rewrite own_mkp0 in Ho]; discriminate.
+  - (* A_Gc *) exfalso. apply andb_prop in Hs. destruct Hs as [_ Ho]. destruct (is_bucket iter); [rewrite own_clrB in Ho|rewrite own_clr in Ho]; discriminate.
+  - (* G_Cas *) exfalso. apply andb_prop in Hs. destruct Hs as [_ Ho]. destruct (is_bucket iter); [rewrite own_clrB in Ho|rewrite own_clr in Ho]; discriminate.
+  - (* D_Xchg *)
+    apply andb_prop in Hs. destruct Hs as [Hm Ho]. apply N.eqb_eq in Hm. subst node. cbn [eff2 fst snd] in *.
+    destruct Hli as [_ (Hz & _)].
+    assert (Hin : In n (refs (D_Xchg n v) ++ [found p])) by (cbn; tauto).
+    destruct (Hcr _ Hin) as [E|Hi]; [contradiction|].
+    split; [exact Hi|split].
+    + unfold LfhtReach.nxw, Mm. destruct (is_owner (smem hloc (hprog C) s (HNext n))); [discriminate|reflexivity].
+    + assert (Hp0 : hpost C p (smem hloc (hprog C) s (HNext n)) = []) by (unfold hpost, hnext; rewrite Ep; reflexivity). rewrite Hp0. cbn [drain].
+      unfold LfhtReach.nxw, Mm; cbn [smem mkst2]. rewrite upd_s. apply own_lor4.
+  - (* R_Cas *)
+    apply andb_prop in Hs. destruct Hs as [Hs _]. apply andb_prop in Hs. destruct Hs as [Hm Heq]. apply N.eqb_eq in Hm. subst old. cbn [eff2 fst snd] in *.
+    apply N.eqb_eq in Heq. destruct Hli as [[Hrm _] (Hz & _)].
+    assert (Hin : In n (refs (R_Cas n new onext sz) ++ [found p])) by (cbn; tauto).
+    destruct (Hcr _ Hin) as [E|Hi]; [contradiction|].
+    split; [exact Hi|split].
+    + destruct (is_owner (nxw s n)) eqn:E; [|reflexivity]. pose proof (HO n E Hi) as H. unfold LfhtReach.nxw, Mm in H. rewrite Heq, Hrm in H. discriminate.
+    + unfold hpost. rewrite Ep. rewrite Heq, N.eqb_refl. cbn [drain].
+      unfold LfhtReach.nxw, Mm; cbn [smem mkst2]. rewrite upd_o by discriminate. rewrite upd_s. unfold is_owner, mkp. rewrite tb2. reflexivity.
+  - (* RG_Cas *) exfalso. apply andb_prop in Hs. destruct Hs as [_ Ho]. destruct (is_bucket iter); [rewrite own_clrB in Ho|rewrite own_clr in Ho]; discriminate.
 Qed.
 
 Theorem lfht_single_owner n : forall cs (s : st), Inv2 s -> OR s ->
@@ -95,7 +119,7 @@ Proof.
     - unfold exec. change (sthr hloc (hprog C) s t) with (THr C s t). rewrite (J_buf C isB s HI t). split; assumption. }
   assert (Hev : forall e, snd (exec hloc hloc_eqb (hprog C) c s) = Some e -> is_succ n e = true ->
                 insd s n /\ is_owner (nxw s n) = false /\ is_owner (nxw (fst (exec hloc hloc_eqb (hprog C) c s)) n) = true).
-  { intros e He Hs. destruct c as [t|t]; [apply (succ_step s t n e HI He Hs)|].
+  { intros e He Hs. destruct c as [t|t]; [apply (succ_step s t n e HI HO He Hs)|].
     unfold exec in He. change (sthr hloc (hprog C) s t) with (THr C s t) in He. rewrite (J_buf C isB s HI t) in He. discriminate. }
   assert (Hins : insd s n -> insd (fst (exec hloc hloc_eqb (hprog C) c s)) n).
   { intros Hi. destruct c as [t|t]; [apply (insd_kind C s _ n (step_kind C isB s t HI) Hi)|].
